@@ -4,11 +4,17 @@
 //! usage: verif-harness <command> <casefile>
 mod bits;
 mod budget;
+mod cdiff;
+mod cdiff_env;
 mod codec;
+mod conc;
+mod env;
 mod findings;
+mod infer;
 mod jets;
 mod policy;
 mod prog;
+mod redeem;
 mod util;
 mod value;
 
@@ -65,6 +71,12 @@ fn main() {
             "value" => value::run(&toks[1..]),
             "c01" => codec::run_c01(&toks[1..]),
             "c02" => codec::run_c02(&toks[1..]),
+            "redeem" => redeem::run(&toks[1..]),
+            "infer" => infer::run(&toks[1..]),
+            "env" => env::run(&toks[1..]),
+            "conc" => conc::run(&toks[1..]),
+            "c03" => cdiff::run_c03(&toks[1..]),
+            "c06" => cdiff::run_c06(&toks[1..]),
             other => {
                 eprintln!("unknown command {}", other);
                 std::process::exit(2);
